@@ -25,7 +25,7 @@ LEVEL_NOTE = ('trusted: CPython ast positions, tokenize; ownership rules for par
 RULE = ('enum: case = (program, node path, query) or (program, rectangle, function); non-trivial = distinct located nodes / '
         'rectangles with a non-None answer; states = distinct (program, node); traces = answers compared with the oracle')
 ASSUMPTIONS = ['read-only', 'brute force for find_* ranges over the nodes of walk("loc") (validated by C14)']
-BOUNDS = {'quick': '110 programs; every node; rectangles with token-boundary corners on programs <= 40 tokens',
+BOUNDS = {'quick': '135 programs; every node; extents of the roots of 468 undelimited multi-line fragments; the same laws on every tree reached by one edit (comment put, replace, remove, insert) after all cacheable queries; rectangles with token-boundary corners on programs <= 40 tokens',
           'thorough': 'quick + rectangles with corners at token boundaries +-1 + corpus sweep of /repo/src/fst/*.py (nodes only)'}
 
 PARS = [
